@@ -93,6 +93,16 @@ pub fn render_sample(sc: &Scenario) -> serde_json::Value {
 }
 
 /// worker: runs indices w, w+n, ... strictly sequentially
+/// child side of the minimisation: minimise the replay in `path` in place
+pub fn mmin(path: &str) -> i32 {
+    let Some(mut rp) = std::fs::read_to_string(path).ok().and_then(|t| serde_json::from_str::<Replay>(&t).ok()) else { return 2 };
+    minimize::minimize(&mut rp, 600);
+    if std::fs::write(path, serde_json::to_string(&rp).unwrap()).is_err() {
+        return 2;
+    }
+    0
+}
+
 pub fn worker(id: &str, tier: &str, seed: u64, w: u64, n: u64) -> i32 {
     let Some(cfg) = check_cfg(id, tier) else { return 2 };
     let rcfg = RunCfg { backends: cfg.backends.clone(), check_heap: cfg.check_heap, hostile: cfg.hostile, record_snaps: 0, ref_budget: 400_000 };
@@ -417,7 +427,21 @@ pub fn check(id: &str, tier: &str) -> i32 {
                 minimised: false,
                 check_heap: cfg.check_heap,
             };
-            minimize::minimize(&mut rp, 600);
+            // minimisation recompiles candidate programs: done in a child process, so that a
+            // compiler that overflows its stack on a candidate costs the minimisation, not the check
+            let tmp = format!("{}/work/mmin-{}-{}.json", verif_dir(), std::process::id(), fl.run);
+            let _ = std::fs::create_dir_all(format!("{}/work", verif_dir()));
+            if std::fs::write(&tmp, serde_json::to_string(&rp).unwrap()).is_ok() {
+                let st = Command::new(&exe).args(["mmin", &tmp]).stdout(Stdio::null()).stderr(Stdio::null()).status();
+                if st.ok().and_then(|s| s.code()) == Some(0) {
+                    if let Some(m) = std::fs::read_to_string(&tmp).ok().and_then(|t| serde_json::from_str::<Replay>(&t).ok()) {
+                        rp = m;
+                    }
+                } else {
+                    total.note("minimisation of a finding crashed the compiler under test (finding reported as found)");
+                }
+                let _ = std::fs::remove_file(&tmp);
+            }
             let input = serde_json::to_string(&rp.scenario).unwrap();
             if let Some(k) = known_match(&known, id, &format!("{class:?}"), backend.name(), &rp.message, &input) {
                 if reported_known.insert(k.what.clone()) {
